@@ -18,6 +18,13 @@ type Prop struct {
 	Packages    []string
 	Run         func(c *engine.Ctx, tier string)
 	NeedSSA     bool
+	Witness     []WitnessTarget // where the thorough tier derives witness mutants
+}
+
+// WitnessTarget names functions (by short-name substring; none = all) of a package.
+type WitnessTarget struct {
+	Pkg   string
+	Funcs []string
 }
 
 var registry = map[string]*Prop{}
@@ -100,5 +107,8 @@ func transactionAliases(p *engine.Prog) *engine.Aliases {
 		"TCHG", "@T.Details.(*config/v2.Transaction_Change)",
 		"TRBK", "@T.Details.(*config/v2.Transaction_Rollback)",
 		"RBT", "call:store/v2/transaction.Store.GetByIndex(@TRBK.Rollback.RollbackIndex)",
+		"RBTCHG", "@RBT.Details.(*config/v2.Transaction_Change)",
+		"EXP", "call:store/v2/proposal.Store.Get(store/v2/proposal.NewID(key(@TCHG.Change.Values),@T.Index))",
+		"EXPR", "call:store/v2/proposal.Store.Get(store/v2/proposal.NewID(key(@RBTCHG.Change.Values),@T.Index))",
 	)
 }
